@@ -563,3 +563,228 @@ Proof.
     bind_as H st1 E1. destruct (IHa Hua _ _ _ G E1) as [G1 P1]. destruct (IHs Hus _ _ _ G1 H) as [G2 P2].
     split; auto. eapply PM_trans; eauto.
 Qed.
+
+(* ---- config updates -------------------------------------------------------- *)
+Lemma update_config_facts sender p st st' : Inv st -> update_config sender p st = Ok st' ->
+  sender = owner (conf st) /\ Inv st' /\ ab st' = ab st /\ lp st' = lp st /\ pend st' = pend st /\ allf st' = allf st /\
+  burned st' = burned st /\ counter st' = counter st /\ is_cw20 (conf st') = is_cw20 (conf st).
+Proof.
+  unfold update_config. intros I H.
+  bind_as H uu EO. apply ensure_ok' in EO. apply Nat.eqb_eq in EO.
+  bind_as H fees EF. destruct fees as [[a b] d]. inversion H; subst st'; clear H. simp.
+  split; auto. split; [|repeat split; auto].
+  assert (HV : fees_valid a b d = true).
+  { destruct (u_fees p) as [[[a' b'] d']|].
+    - bind_as EF uu2 EV. apply ensure_ok' in EV. inversion EF; subst. auto.
+    - inversion EF; subst. apply I. }
+  destruct I. constructor; simp; auto.
+Qed.
+
+(* ---- the router's part of a loan ------------------------------------------- *)
+Lemma complete_loan_spec u z st st' : complete_loan u z st = Ok st' ->
+  exists q pf ff bf ab1, payback (conf st) z = Ok (q, pf, ff, bf) /\ q <= get (ab st) ROUTER /\
+    xfer (kind st) (ab st) ROUTER VAULT q = Ok ab1 /\
+    ((get (ab st) ROUTER - q = 0 /\ st' = set_ab st ab1) \/
+     (get (ab st) ROUTER - q <> 0 /\ exists ab2, xfer (kind st) ab1 ROUTER u (get (ab st) ROUTER - q) = Ok ab2 /\ st' = set_ab st ab2)).
+Proof.
+  unfold complete_loan. intros H. bind_as H qq EQ. destruct qq as [[[q pf] ff] bf]. simp.
+  bind_as H profit EP. apply csub_ok in EP as [-> Hle].
+  bind_as H ab1 EX. exists q, pf, ff, bf, ab1. repeat split; auto.
+  destruct (get (ab st) ROUTER - q =? 0) eqn:E0.
+  - apply Z.eqb_eq in E0. inversion H. left; auto.
+  - apply Z.eqb_neq in E0. bind_as H ab2 EX2. inversion H. right. split; auto. eauto.
+Qed.
+
+Lemma complete_loan_Q u z st st' : Inv st -> complete_loan u z st = Ok st' -> Q st st' /\ LF st st'.
+Proof.
+  intros I H. apply complete_loan_spec in H as (q & pf & ff & bf & ab1 & _ & _ & Hx & [[_ ->]|(_ & ab2 & Hx2 & ->)]).
+  - split; [eapply Q_xfer; eauto | lf_triv].
+  - split; [|lf_triv]. apply Q_set_ab; auto.
+    + eapply xfer_nonneg; [|eauto]. eapply xfer_nonneg; [|eauto]. apply I.
+    + rewrite (xfer_length _ _ _ _ _ _ Hx2). eapply xfer_length; eauto.
+Qed.
+
+Lemma router_body_Q u z pre s s1 s2 : Inv s1 -> router_body u z pre s s1 = Ok s2 ->
+  Q s1 s2 /\ (loan_free s = true -> LF s1 s2).
+Proof.
+  unfold router_body. intros I H. destruct script_Q as [_ QS]. destruct script_LF as [_ LS].
+  bind_as H sa EA. bind_as H sb EB.
+  assert (QA : Q s1 sa /\ LF s1 sa).
+  { destruct (pre =? 0); [inversion EA; subst; split; [apply Q_refl; auto | apply LF_refl]|].
+    bind_as EA ab' EX. inversion EA; subst. split; [eapply Q_xfer; eauto | lf_triv]. }
+  destruct QA as [QA LA].
+  assert (Ia : Inv sa) by apply QA.
+  pose proof (QS _ _ _ _ Ia EB) as QB. assert (Ib : Inv sb) by apply QB.
+  destruct (complete_loan_Q _ _ _ _ Ib H) as [QC LC].
+  split; [eapply Q_trans; [eauto|]; eapply Q_trans; eauto|].
+  intros Hlf. eapply LF_trans; [eauto|]. eapply LF_trans; [|eauto]. eapply LS; eauto.
+Qed.
+
+Lemma router_keeps_nothing u z pre s st st' : Inv st -> u <> ROUTER -> router_loan u z pre s st = Ok st' ->
+  get (ab st') ROUTER = 0.
+Proof.
+  unfold router_loan. intros I Hu H. bind_as H uu EH.
+  apply flash_loan_spec in H as (_ & _ & ab1 & st2 & _ & Hbody & Hat).
+  apply after_trade_spec in Hat. cbv zeta in Hat. destruct Hat as (_ & _ & ->). simp.
+  rewrite get_upd_other by (unfold VAULT, ROUTER; lia).
+  unfold router_body in Hbody. bind_as Hbody sa EA. bind_as Hbody sb EB.
+  apply complete_loan_spec in Hbody as (q & pf & ff & bf & abx & _ & Hq & Hx & [[Hz ->]|(Hnz & ab2 & Hx2 & ->)]); simp.
+  - rewrite (xfer_get _ _ _ _ _ _ ROUTER Hx). cbn. lia.
+  - rewrite (xfer_get _ _ _ _ _ _ ROUTER Hx2). rewrite (xfer_get _ _ _ _ _ _ ROUTER Hx). rewrite Nat.eqb_refl.
+    destruct (Nat.eqb_spec ROUTER u); [congruence|]. cbn. lia.
+Qed.
+
+(* the settlement step of the router: the vault receives exactly the quote, the initiator everything else *)
+Lemma complete_loan_effect u z st st' : u <> ROUTER -> u <> VAULT -> complete_loan u z st = Ok st' ->
+  exists q pf ff bf, payback (conf st) z = Ok (q, pf, ff, bf) /\
+    bal st' = bal st + q /\ get (ab st') ROUTER = 0 /\ get (ab st') u = get (ab st) u + (get (ab st) ROUTER - q) /\
+    lp st' = lp st /\ pend st' = pend st.
+Proof.
+  intros Hr Hv H. apply complete_loan_spec in H as (q & pf & ff & bf & ab1 & Hp & Hq & Hx & Hcase).
+  exists q, pf, ff, bf. split; auto.
+  assert (RV : ROUTER <> VAULT) by (unfold ROUTER, VAULT; lia).
+  destruct Hcase as [[Hz ->]|(Hnz & ab2 & Hx2 & ->)]; unfold bal; simp.
+  - rewrite !(xfer_get _ _ _ _ _ _ _ Hx). rewrite !Nat.eqb_refl.
+    destruct (Nat.eqb_spec VAULT ROUTER); [congruence|]. destruct (Nat.eqb_spec ROUTER VAULT); [congruence|].
+    destruct (Nat.eqb_spec u ROUTER); [congruence|]. destruct (Nat.eqb_spec u VAULT); [congruence|].
+    repeat split; auto; lia.
+  - rewrite !(xfer_get _ _ _ _ _ _ _ Hx2). rewrite !(xfer_get _ _ _ _ _ _ _ Hx). rewrite !Nat.eqb_refl.
+    destruct (Nat.eqb_spec VAULT ROUTER); [congruence|]. destruct (Nat.eqb_spec ROUTER VAULT); [congruence|].
+    destruct (Nat.eqb_spec u ROUTER); [congruence|]. destruct (Nat.eqb_spec u VAULT); [congruence|].
+    destruct (Nat.eqb_spec VAULT u); [congruence|]. destruct (Nat.eqb_spec ROUTER u); [congruence|].
+    repeat split; auto; lia.
+Qed.
+
+(* ---- top-level operations --------------------------------------------------- *)
+Lemma is_user_ne st u : is_user st u = true -> u <> VAULT /\ u <> ROUTER /\ u <> ADV /\ (u < length (ab st))%nat.
+Proof.
+  unfold is_user. rewrite andb_true_iff. intros [H1 H2]. apply has_true in H1. apply Nat.leb_le in H2.
+  unfold VAULT, ROUTER, ADV. lia.
+Qed.
+
+(* what every operation preserves, nested loans included *)
+Definition W (st st' : state) : Prop :=
+  Inv st' /\ counter st' = counter st /\ get (lp st) VAULT <= get (lp st') VAULT /\ is_cw20 (conf st') = is_cw20 (conf st).
+
+Lemma W_of_Q st st' : Q st st' -> W st st'.
+Proof. intros (I & C & F & _ & _ & _ & V). unfold W. rewrite F. auto. Qed.
+
+Lemma step_W st o st' : Inv st -> step st o = Ok st' -> W st st'.
+Proof.
+  intros I H. destruct o; cbn [step] in H.
+  - bind_as H uu EU. apply W_of_Q. eapply deposit_Q in H; eauto. apply H.
+  - bind_as H uu EU. apply W_of_Q. eapply withdraw_facts in H; eauto. apply H.
+  - discriminate H.
+  - apply W_of_Q. eapply collect_Q in H; eauto. apply H.
+  - assert (HU : exists s, update_config s p st = Ok st').
+    { destruct via_factory; [bind_as H uu EU|]; eauto. }
+    destruct HU as [s HU]. apply update_config_facts in HU as (_ & I' & _ & Hlp & _ & _ & _ & Hc & Hk); auto.
+    unfold W. rewrite Hlp. split; [exact I'|]. split; [auto|]. split; [lia | auto].
+  - bind_as H uu EU. bind_as H ab' EX. inversion H; subst. apply W_of_Q. eapply Q_xfer; eauto.
+  - bind_as H uu EU. bind_as H uu2 EA. inversion H; subst; clear H.
+    apply ensure_ok' in EU. apply is_user_ne in EU as (Hv & _). apply ensure_ok' in EA. apply andb_true_iff in EA as [Ha1 Ha2]. apply Z.leb_le in Ha1, Ha2.
+    unfold W; simp. rewrite get_upd_other by auto. split; [|split; [auto|split; [lia|auto]]].
+    destruct I. constructor; simp; auto.
+    + apply nonneg_upd; auto. lia.
+    + intros Hp. rewrite get_upd_other by auto. apply i_locked0. unfold supply in *; simp.
+      rewrite sumZ_upd_any in Hp. destruct (has (lp st) u); lia.
+  - apply W_of_Q. destruct script_Q as [_ QS]. eapply QS; eauto.
+  - bind_as H uu EU. unfold router_loan in H. bind_as H uu2 EH. apply W_of_Q.
+    eapply flash_loan_Q in H; eauto; [apply H|]. intros s1 s2 I1 HB. eapply router_body_Q; eauto.
+  - destruct (n =? 0); inversion H; subst. apply W_of_Q, Q_refl; auto.
+  - discriminate H.
+  - discriminate H.
+  - discriminate H.
+Qed.
+
+Lemma step_good st o st' : Good st -> op_unnested o = true -> step st o = Ok st' -> Good st' /\ PM st st'.
+Proof.
+  intros G Hun H. pose proof G as (I & S & C). destruct o; cbn [step] in H; cbn [op_unnested] in Hun.
+  - bind_as H uu EU. apply ensure_ok' in EU. apply is_user_ne in EU as (Hv & _).
+    eapply deposit_good in H; eauto. split; apply H.
+  - bind_as H uu EU. eapply withdraw_good in H; eauto. split; apply H.
+  - discriminate H.
+  - eapply collect_good; eauto.
+  - assert (HU : exists s, update_config s p st = Ok st').
+    { destruct via_factory; [bind_as H uu EU|]; eauto. }
+    destruct HU as [s HU]. apply update_config_facts in HU as (_ & I' & Hab & Hlp & Hp & _ & _ & Hc & _); auto.
+    split.
+    + split; auto. split; [unfold Solvent, bal in *; rewrite Hab, Hp; auto | lia].
+    + apply PM_of; unfold Solvent, backing, bal, supply in *; rewrite ?Hab, ?Hp, ?Hlp; auto; lia.
+  - bind_as H uu EU. apply ensure_ok' in EU. apply is_user_ne in EU as (Hv & _).
+    bind_as H ab' EX. inversion H; subst. eapply good_xfer_in; eauto.
+  - pose proof (step_W st (OBurnLP u a) st' I H) as (I' & Hc & _).
+    bind_as H uu EU. bind_as H uu2 EA. inversion H; subst; clear H.
+    apply ensure_ok' in EU. apply is_user_ne in EU as (Hv & _ & _ & Hlen).
+    apply ensure_ok' in EA. apply andb_true_iff in EA as [Ha1 Ha2]. apply Z.leb_le in Ha1, Ha2.
+    pose proof (good_backing _ G) as HT.
+    assert (Hsup : supply (set_lp st (upd (lp st) u (get (lp st) u - a))) <= supply st).
+    { unfold supply; simp. rewrite sumZ_upd_any. destruct (has (lp st) u); lia. }
+    split.
+    + split; auto.
+    + apply PM_of; auto; [unfold backing, bal; simp; lia|].
+      intros Hp. apply supply_pos_of_locked; auto. simp. rewrite get_upd_other by auto.
+      pose proof (i_locked _ I Hp). pose proof MIN_LIQ_pos. lia.
+  - destruct script_G as [_ GS]. eapply GS; eauto.
+  - bind_as H uu EU. unfold router_loan in H. bind_as H uu2 EH.
+    pose proof (good_backing _ G) as HT.
+    assert (HB : forall s1 s2, Inv s1 -> router_body u z pre s s1 = Ok s2 -> Q s1 s2 /\ LF s1 s2).
+    { intros s1 s2 I1 HB. pose proof (router_body_Q _ _ _ _ _ _ I1 HB) as [HQ HL]. split; auto. }
+    pose proof (loan_settles _ _ _ _ _ HB I H) as (Hbal & _ & _ & Hp & Hc & Hsup & HQ & Hff).
+    split.
+    + split; [apply HQ|]. split; [unfold Solvent in *; lia | lia].
+    + apply PM_of; auto; [unfold backing in *; lia|]. eapply Q_supply_pos; eauto.
+  - destruct (n =? 0); inversion H; subst. split; auto. apply PM_refl.
+  - discriminate H.
+  - discriminate H.
+  - discriminate H.
+Qed.
+
+(* ---- histories -------------------------------------------------------------- *)
+Lemma run_app st h1 h2 : run st (h1 ++ h2) = run (run st h1) h2.
+Proof. unfold run. apply fold_left_app. Qed.
+
+Lemma W_refl st : Inv st -> W st st.
+Proof. intros. unfold W. split; [assumption|]. split; [auto|]. split; [lia|auto]. Qed.
+Lemma W_trans a b c : W a b -> W b c -> W a c.
+Proof. unfold W. intros (I1 & C1 & V1 & K1) (I2 & C2 & V2 & K2). split; [assumption|]. split; [congruence|]. split; [lia|congruence]. Qed.
+
+Lemma apply_W st o : Inv st -> W st (apply st o).
+Proof.
+  intros I. unfold apply. destruct (step st o) eqn:E; try (apply W_refl; auto). eapply step_W; eauto.
+Qed.
+
+Lemma run_W h : forall st, Inv st -> W st (run st h).
+Proof.
+  induction h as [|o h IH]; intros st I; cbn.
+  - apply W_refl; auto.
+  - pose proof (apply_W st o I) as W1. eapply W_trans; eauto. apply IH. apply W1.
+Qed.
+
+Lemma unnested_iff h : ~ has_nested_loan h <-> forallb op_unnested h = true.
+Proof.
+  unfold has_nested_loan. induction h as [|o h IH]; cbn.
+  - split; [auto | intros _ H; discriminate H].
+  - destruct (op_unnested o); cbn.
+    + exact IH.
+    + split; [intros H; exfalso; apply H; auto | discriminate].
+Qed.
+
+Lemma run_good h : forall st, Good st -> forallb op_unnested h = true -> Good (run st h) /\ PM st (run st h).
+Proof.
+  induction h as [|o h IH]; intros st G Hun; cbn in *.
+  - split; auto. apply PM_refl.
+  - apply andb_true_iff in Hun as [Ho Hh].
+    assert (G1 : Good (apply st o) /\ PM st (apply st o)).
+    { unfold apply. destruct (step st o) eqn:E; try (split; auto; apply PM_refl). eapply step_good; eauto. }
+    destruct G1 as [G1 P1]. destruct (IH _ G1 Hh) as [G2 P2]. split; auto. eapply PM_trans; eauto.
+Qed.
+
+Lemma init_good p f b k bals st : nonneg bals -> init p f b k bals = Ok st -> Good st /\ supply st = 0.
+Proof.
+  unfold init. intros Hn H. bind_as H uu EV. apply ensure_ok' in EV. inversion H; subst; clear H.
+  assert (HS : supply (mkSt bals (map (fun _ : Z => 0) bals) 0 0 0 0 (mkCfg p f b true true true FACT k)) = 0)
+    by (unfold supply; simp; apply sumZ_map0).
+  split; auto. split; [|split; [unfold Solvent, bal; simp; apply nonneg_get; auto | reflexivity]].
+  constructor; simp; auto; try lia; try apply nonneg_map0.
+Qed.
